@@ -1968,7 +1968,7 @@ def _c19_location(seed):
     # once with exactly those arguments (anything remembered per call must not outlive an
     # attribute change), then attributes are changed, then the comparison is made
     d = datetime.date.fromordinal(rng.randint(693596, 767010))
-    elev = rng.choice([0.0, rng.uniform(0, 2000)])
+    elev = rng.choice([0.0, rng.uniform(0, 2000), rng.randint(1, 3000), 0])    # floats and plain ints
     local = rng.random() < 0.6
     di = rng.choice([SunDirection.RISING, SunDirection.SETTING])
     naive = datetime.datetime(d.year, d.month, d.day, rng.randint(0, 23), rng.randint(0, 59))
